@@ -406,6 +406,7 @@ def run_sched(case):
         if len(viol) > before:
             for v in viol[before:]:
                 v["detail"] += " | scenario=%s schedule=%s" % (scn.name, x.choices)
+                v["exact"] = {"scenario": name, "backend": backend, "choices": list(x.choices)}
 
     if not prefix:
         n, capped = explorer.explore(scn, 0, on_exec)
@@ -444,3 +445,11 @@ def replay(desc):
     for v in r["viol"][:30]:
         print(v["clause"], v["detail"][:500])
     return r["viol"]
+
+
+def replay_exact(ex):
+    scn = make_scenario(ex["scenario"], ex["backend"])
+    viol = explorer.replay_schedule(scn, ex["choices"], lambda x, v: judge_schedule(x, ex["scenario"], v, "replay", "replay"))
+    for v in viol:
+        print(v["clause"], v["detail"][:400])
+    return viol
